@@ -4,6 +4,7 @@ import (
 	"errors"
 	"fmt"
 	"strings"
+	"time"
 
 	"github.com/yuin/goldmark/ast"
 )
@@ -13,7 +14,7 @@ func init() { runners["C13"] = runC13 }
 // ----- reference forest (independent of the Coq model; used as the search oracle) -----
 
 type refForest struct {
-	parent map[int]int   // 0 = none
+	parent map[int]int // 0 = none
 	kids   map[int][]int
 }
 
@@ -286,7 +287,11 @@ func runProg(c *Ctx, n int, ops []astOp, stream string) (string, []ast.Node, *re
 	parents := map[int]bool{}
 	for i, o := range ops {
 		names = append(names, o.String())
-		if applyReal(pool, o) {
+		panicked := false
+		c.watchdog(5*time.Second, "ast-hang", func() interface{} {
+			return map[string]interface{}{"nodes": n, "ops": strings.Join(names, " ")}
+		}, func() { panicked = applyReal(pool, o) })
+		if panicked {
 			c.Violate("panic", map[string]interface{}{"nodes": n, "ops": strings.Join(names, " ")}, "mutator panicked on a legal call", "ast-panic")
 			obs = append(obs, "PANIC")
 			break
@@ -404,22 +409,30 @@ func runWalk(c *Ctx, pn int, prog string, pool []ast.Node, rf *refForest, root i
 	var trace []string
 	calls := 0
 	errX := errors.New("x")
-	err := ast.Walk(pool[root], func(n ast.Node, entering bool) (ast.WalkStatus, error) {
-		s := "3"
-		if calls < len(script) {
-			s = script[calls]
-		}
-		calls++
-		d := "-"
-		if entering {
-			d = "+"
-		}
-		trace = append(trace, d+itoa(idOf(pool, n)))
-		var e error
-		if strings.HasSuffix(s, "e") {
-			e = errX
-		}
-		return ast.WalkStatus(int(s[0] - '0')), e
+	var err error
+	c.watchdog(5*time.Second, "walk-hang", func() interface{} {
+		return map[string]interface{}{"nodes": pn, "ops": prog, "root": root, "script": strings.Join(script, ",")}
+	}, func() {
+		err = ast.Walk(pool[root], func(n ast.Node, entering bool) (ast.WalkStatus, error) {
+			s := "3"
+			if calls < len(script) {
+				s = script[calls]
+			}
+			calls++
+			d := "-"
+			if entering {
+				d = "+"
+			}
+			trace = append(trace, d+itoa(idOf(pool, n)))
+			var e error
+			if strings.HasSuffix(s, "e") {
+				e = errX
+			}
+			if len(trace) > 100000 {
+				return ast.WalkStop, errX // runaway walk (cyclic tree): reported by the oracle below
+			}
+			return ast.WalkStatus(int(s[0] - '0')), e
+		})
 	})
 	res := btoa(err != nil) + ":" + strings.Join(trace, ",")
 	// independent oracle: depth-first walk of the reference forest
